@@ -806,6 +806,15 @@ impl RenderNode {
         estimate
     }
 
+    /// Return true if this node holds nothing but fragment start markers.
+    fn is_only_frag_starts(&self) -> bool {
+        match self.info {
+            RenderNodeInfo::FragStart(_) => true,
+            RenderNodeInfo::Container(ref v) => v.iter().all(RenderNode::is_only_frag_starts),
+            _ => false,
+        }
+    }
+
     /// Return true if this node is definitely empty.  This is used to quickly
     /// remove e.g. links with no anchor text in most cases, but can't recurse
     /// and look more deeply.
@@ -1410,6 +1419,11 @@ where
         cons: Box::new(move |ctx, children| {
             if children.is_empty() {
                 Ok(None)
+            } else if children.iter().all(RenderNode::is_only_frag_starts) {
+                // Only fragment markers (from ids of otherwise empty
+                // elements): keep them, but don't let them turn an empty
+                // element into a visible block.
+                Ok(Some(RenderNode::new(RenderNodeInfo::Container(children))))
             } else {
                 Ok(f(ctx, children))
             }
